@@ -94,7 +94,7 @@ def check_structure(cx, label, agg, nmol, mult, sigs):
 
 
 @harness("C03", "frenkel_matrix",
-         quick=[dict(nmol=2, mult=1), dict(nmol=2, mult=2), dict(nmol=3, mult=2)],
+         quick=[dict(nmol=2, mult=1), dict(nmol=2, mult=2), dict(nmol=3, mult=2), dict(nmol=4, mult=2)],
          thorough=[dict(nmol=n, mult=m) for n in (1, 2, 3, 4, 5) for m in (1, 2)
                    if (n, m) != (1, 2)],   # a monomer has no two-exciton band (set_rwa averages an empty block: 0/0, unobservable),
          functions=FUNCS,
@@ -113,6 +113,9 @@ def frenkel_matrix(cx, nmol, mult):
     cx.prove_eq("H_symmetric", H._data, H._data.T)
     cx.prove_eq("D", agg.get_TransitionDipoleMoment()._data, Dref)
     cx.prove_eq("DD", agg.DD, Dref)
+    # the electronic-state entry point (for a purely electronic aggregate documented to be identical)
+    Hel = agg.get_electronic_Hamiltonian()
+    cx.prove_eq("electronic_Hamiltonian", Hel._data, Href)
 
 
 @harness("C03", "relabelling",
